@@ -1,6 +1,9 @@
 import Sop.Model.StoreRepo
+import Sop.Model.StoreRepoLock
 import Sop.Driver.Util
-/-! Line protocol of C12 over `Sop.StoreRepo`. `drv_c12 --legacy` runs the model of the unrepaired `NewBtree`. -/
+/-! Line protocol of C12 over `Sop.StoreRepo` (cases `single` / `repl`) and over `Sop.StoreRepoLock` (cases
+`lock single` / `lock repl`: schedules of `StoreRepository.Add` / `Remove` / `NewBtree` parked at their L2 cache calls).
+`drv_c12 --legacy` runs the model of the unrepaired `NewBtree`. -/
 namespace Sop.Driver.C12
 open Sop.Driver Sop.StoreRepo
 
@@ -30,7 +33,42 @@ def stepLine (fixed : Bool) (s : State) (ws : List String) : State × String :=
     | some op => step fixed s op
     | none => (s, "bad-op")
 
-def run (fixed : Bool) : IO Unit := runLoop (fun _ => ({} : State)) (stepLine fixed)
+/-! the lock-level cases -/
+namespace L
+open Sop.StoreRepoLock
+
+def kindOf : String → Option Kind
+  | "add" => some .add | "remove" => some .remove | "get" => some .get | "new" => some .new | _ => none
+
+def fuel : Nat := 200
+
+def stepLine (s : StoreRepoLock.State) (ws : List String) : StoreRepoLock.State × String :=
+  match ws with
+  | ["spawn", i, k, n, slot, u] =>
+    match i.toNat?, kindOf k, slot.toNat?, boolOf u with
+    | some i, some k, some slot, some u => (spawn s i k n slot u, "ok")
+    | _, _, _, _ => (s, "bad-op")
+  | ["to", i, p] =>
+    match i.toNat? with
+    | some i => let s' := runTo false p fuel s i; (s', status s' i)
+    | none => (s, "bad-op")
+  | ["finish", i] =>
+    match i.toNat? with
+    | some i => let s' := runTo false "" fuel s i; (s', status s' i)
+    | none => (s, "bad-op")
+  | ["observe"] => (s, observe s)
+  | _ => (s, "bad-op")
+end L
+
+structure DS where
+  fine : Bool := false
+  c : State := {}
+  l : StoreRepoLock.State := {}
+
+def run (fixed : Bool) : IO Unit :=
+  runLoop (fun hdr => ({ fine := hdr.head? == some "lock" } : DS)) fun d ws =>
+    if d.fine then let r := L.stepLine d.l ws; ({ d with l := r.1 }, r.2)
+    else let r := stepLine fixed d.c ws; ({ d with c := r.1 }, r.2)
 end Sop.Driver.C12
 
 def main (args : List String) : IO Unit := Sop.Driver.C12.run (!args.contains "--legacy")
